@@ -72,6 +72,7 @@ type faultDS struct {
 	// open faults: the n-th iterator open after armOpen fails with errInjected
 	slowNs     atomic.Int64 // > 0: every Next sleeps that long first (a slow datastore)
 	panicOnFire bool        // the fired trigger panics inside the datastore iterator instead of returning an error
+	nexts       atomic.Int64 // number of iterator Next calls served (a measure of the work a query causes)
 	openArmed  bool
 	openCount  int
 	failOpenAt int
@@ -163,6 +164,7 @@ type faultIter struct {
 }
 
 func (it *faultIter) Next(ctx context.Context) (*openfgav1.Tuple, error) {
+	it.ds.nexts.Add(1)
 	if it.dead.Load() {
 		return nil, context.Canceled
 	}
